@@ -20,7 +20,8 @@ THEOREMS = [
     'Pysmi.Syntax.C05_defval_hex',
     'Pysmi.Syntax.C05_defval_bin',
     'Pysmi.Syntax.C05_defval_enum',
-    'Pysmi.Syntax.C05_defval_string_partial',
+    'Pysmi.Syntax.C05_defval_string',
+    'Pysmi.Syntax.C05_defval_empty_string_dropped',
     'Pysmi.Syntax.C05_defval_oid',
 ]
 TECHNIQUE = ('Lean 4 theorems about str2int (hex/binary/decimal denotation for every magnitude), range/SIZE list mapping (any length), '
@@ -30,7 +31,7 @@ LEVEL_TEXT = ('Proved in Lean: decimal, hexadecimal (either case) and binary spe
               'magnitude; empty hex/bin strings are errors; every range / SIZE alternative is emitted in order (single value: min = max) '
               'for lists of any length; getBaseType returns the base type at the end of any acyclic chain of derived types (any length, '
               'across modules) with the enumeration/bit lists met on the way, own list first; DEFVAL forms: number, hex/bin on integer '
-              'and other bases, string (partial: the empty string is dropped for every base - recorded finding), enumeration label '
+              'and other bases, string (verbatim; the empty string kept on OCTET STRING and dropped on every other base), enumeration label '
               '(member of the resolved enumeration), OID label. The lexer\'s token classes (32/64-bit bounds) are C11/C02\'s lexer model. '
               'The pysnmp template\'s rendering of constraints and defaults is not modelled (checked by executing the module). Tied by '
               'calling the real str2int/genIntegerSubType/getBaseType on the same inputs and by JSON documents of generated modules.')
@@ -196,6 +197,12 @@ def check_set(ctx, obs):
                 want = {'value': v, 'format': 'enum'}
             elif k == 'str':
                 want = {'value': v, 'format': 'string'}
+                if v == '' and not oct_base(base):
+                    # the empty string is a default only an OCTET STRING can have; on other bases it is dropped
+                    want = None
+                    if dflt is not None:
+                        res.oracle_failures.append({'key': 'defval', 'what': '%s::%s: DEFVAL "" on %s emitted as %r, expected none' % (
+                            mn, name, syn['base'], dflt), 'input': inp})
             elif k == 'hexstr':
                 want = {'value': v, 'format': 'hex'}
             elif k == 'binstr':
@@ -216,7 +223,7 @@ def check_set(ctx, obs):
             if k in ('num', 'hex', 'bin', 'str', 'hexstr', 'binstr') and ctx.defval_reqs is not None:
                 lit = {'num': ['num', v], 'hex': ['hex', '%X' % v] if k == 'hex' else None, 'bin': ['bin', bin(v)[2:]] if k == 'bin' else None,
                        'str': ['str', v], 'hexstr': ['hex', v], 'binstr': ['bin', v]}[k]
-                ctx.defval_reqs.append({'op': 'defval', 'isInt': is_int, 'isOid': base.get('base') == 'OBJECT IDENTIFIER', 'isBits': 'bits' in base,
+                ctx.defval_reqs.append({'op': 'defval', 'isInt': is_int, 'isOid': base.get('base') == 'OBJECT IDENTIFIER', 'isBits': 'bits' in base, 'isOctets': oct_base(base),
                                         'enum': None, 'known': [], 'defval': lit})
                 ctx.defval_metas.append(('defval', (mn, name, d['defval'], syn['base']), dflt))
             if want is not None:
@@ -275,6 +282,11 @@ def dedup(l):
         if x not in out:
             out.append(x)
     return out
+
+
+def oct_base(base):
+    """the resolved base type is OCTET STRING (DisplayString and other string TCs resolve to it; Opaque does not)"""
+    return base.get('base') in ('OCTET STRING', 'DisplayString') or (base.get('kind') == 'str' and base.get('base') != 'Opaque')
 
 
 def run(ctx):
